@@ -607,6 +607,12 @@ def parseTypedef (fuel : Nat) (cm : Bytes) (node : T) : W Typedef := do
   let al ← pegText ids buf node
   pure { ty := ft, alias := al, anns := [], comments := cm }
 
+/-- `n.next.pegRule` (both dereferences) together with `n.next` -/
+def peekNext (n : T) : W (Nat × T) := do
+  let nx ← next? n
+  let r ← rule? nx
+  pure (r, nx)
+
 /-- value of an enum member written without `= n`: 0 for the first, previous + 1 (int64 arithmetic) otherwise -/
 def implicitEnumValue (values : List EnumValue) : Int :=
   match values.getLast? with
@@ -617,24 +623,20 @@ def implicitEnumValue (values : List EnumValue) : Int :=
 continues from -/
 def enumValueAt (values : List EnumValue) (valueComments : Bytes) (n : T) : W (EnumValue × T) := do
   let name ← pegText ids buf n
-  let nx ← next? n
-  let r1 ← rule? nx
+  let (r1, nx) ← peekNext n
   let (value, n) ← (if r1 = ids.rEQUAL then do
       let n2 ← next? nx
       let s ← pegText ids buf n2
       pure ((GoStrconv.parseInt s 0 64).1, n2)
     else pure (implicitEnumValue values, n) : W (Int × T))
-  let nx ← next? n
-  let r2 ← rule? nx
+  let (r2, nx) ← peekNext n
   let (anns, n) ← (if r2 = ids.rAnnotations then do
       let a ← parseAnnotations ids buf nx
       pure (a, nx)
     else pure ([], n) : W (Anns × T))
-  let nx ← next? n
-  let r3 ← rule? nx
+  let (r3, nx) ← peekNext n
   let n := if r3 = ids.rListSeparator then nx else n
-  let nx ← next? n
-  let r4 ← rule? nx
+  let (r4, nx) ← peekNext n
   if r4 = ids.rReservedEndLineComments ∧ valueComments = [] then do
     let c ← parseReservedComments ids buf nx ids.rReservedEndLineComments
     pure ({ name := name, value := value, anns := anns, comments := c }, nx)
